@@ -1722,7 +1722,7 @@ int FMesher::DoPeriodicBCTriangulation(string PathName)
 		}
         agelst[n]->nodeNums.clear ();
 		agelst[n]->nodeNums.shrink_to_fit ();
-		agelst[n]->nodeNums.reserve (myVector.size()+1);
+		agelst[n]->nodeNums.resize (myVector.size()+1);
 		agelst[n]->nodeNums[0]=(int) myVector.size();
 		for(k=0;k<(int)myVector.size();k++) agelst[n]->nodeNums[k+1]=myVector[k];
 	}
